@@ -22,6 +22,15 @@
 (*             p = str.split_inclusive('\n'); sp = the pending spc_if_next blank was put in front of p[1] *)
 EXTENDS Naturals, Sequences, FiniteSets, TLC
 
+(* Names of recorded defects whose PINNED reading (the code before its repair) the operators below transcribe.       *)
+(* A name that is absent selects the repaired reading.  The checks pass the deviations that are still `open` in       *)
+(* known_findings.jsonl; a repaired defect is shown to be refuted by running its pinned reading once more.           *)
+(*   "OpenBraceGapDropped"          format_block never emits the trivia in front of a block's "{"                      *)
+(*   "SameLineStatementsGlued"      format_tokens pushes "\n" only by the token-pair rules, also between statements    *)
+(*                                  that share a source line                                                           *)
+(*   "ElseOnNewLineGainsBlankLine"  brace position new-line pushes "\n" in front of "{" / else unconditionally        *)
+CONSTANT Devs
+
 NL == "\n"
 RECURSIVE Sp(_)
 Sp(n) == IF n = 0 THEN "" ELSE " " \o Sp(n - 1)
@@ -97,35 +106,58 @@ DropLeadingNl(ch, n0) ==      \* trim_leading_trivia: remove "\n" chunks at posi
 RECURSIVE PopTrailingNl(_)
 PopTrailingNl(ch) == IF Len(ch) > 0 /\ IsNlChunk(ch[Len(ch)]) THEN PopTrailingNl(SubSeq(ch, 1, Len(ch) - 1)) ELSE ch
 
+HasNl(tr) == \E i \in 1..Len(tr) : tr[i].k = "nl"
 LeadOf(body, i, eoftr) == IF i <= Len(body) THEN body[i].lead ELSE eoftr
 KindOf(body, i) == IF i <= Len(body) THEN body[i].k ELSE "eof"
 HasBlk(body, i) == i <= Len(body) /\ Len(body[i].blk) > 0
 
-RECURSIVE Toks(_, _, _, _, _), Loop(_, _, _, _, _), Tok(_, _, _), Blk(_, _, _)
+RECURSIVE Toks(_, _, _, _, _), Loop(_, _, _, _, _), Tok(_, _, _), Blk(_, _, _, _)
 
-(* format_block; the opening brace's trivia (b.l) is not used at all, the closing brace's (b.r) becomes the trivia
-   of a synthetic Eof token at the end of the inner tokens *)
-Blk(st, b, o) ==
-  LET s1 == IF o.brace = "same" THEN PushS(PushS(st, "{"), NL) ELSE PushS(PushS(PushS(st, NL), "{"), NL)
+(* repaired readings: newline_unless_present() and the comments of the gap in front of "{" *)
+NlUnlessPresent(st) == IF Len(st.ch) > 0 /\ IsNlChunk(st.ch[Len(st.ch)]) THEN st ELSE PushS(st, NL)
+IsLineComment(x) == Len(x.p) = 1 /\ Len(x.p[1]) >= 2 /\ SubSeq(x.p[1], 1, 2) = "//"
+RECURSIVE BraceGap(_, _)
+BraceGap(st, tr) ==         \* comments only; a line comment is followed by a "\n" of its own, other newlines are dropped
+  IF Len(tr) = 0 THEN st
+  ELSE LET x == Head(tr) IN
+       BraceGap(IF x.k # "c" THEN st
+                ELSE IF IsLineComment(x) THEN PushS(Push(st, "comment", CommentPieces(x.p)), NL)
+                ELSE Push(st, "comment", CommentPieces(x.p)), Tail(tr))
+LastIsLineComment(tr) == LET cs == SelectSeq(tr, LAMBDA x : x.k = "c") IN Len(cs) > 0 /\ IsLineComment(cs[Len(cs)])
+
+(* format_block(block, format_lparen_trivia).  Pinned OpenBraceGapDropped: the opening brace's trivia (b.l) is not
+   used at all.  Repaired: its comments are emitted (withL is FALSE only for a bare block, whose brace trivia is the
+   statement's leading trivia).  The closing brace's trivia (b.r) becomes the trivia of a synthetic Eof token at the
+   end of the inner tokens.  Brace position new-line: pinned ElseOnNewLineGainsBlankLine pushes "\n" in front of the
+   brace unconditionally (except, once the gap is emitted, right after a line comment's own "\n"). *)
+Blk(st, b, withL, o) ==
+  LET keepL == withL /\ "OpenBraceGapDropped" \notin Devs
+      s0 == IF keepL THEN BraceGap(st, b.l) ELSE st
+      sn == IF "ElseOnNewLineGainsBlankLine" \in Devs
+            THEN (IF keepL /\ LastIsLineComment(b.l) THEN s0 ELSE PushS(s0, NL))
+            ELSE NlUnlessPresent(s0)
+      s1 == IF o.brace = "same" THEN PushS(PushS(s0, "{"), NL) ELSE PushS(PushS(sn, "{"), NL)
       s2 == Toks([s1 EXCEPT !.ind = @ + o.indent], b.body, b.r, TRUE, o)
       s3 == [s2 EXCEPT !.ind = st.ind, !.ch = PopTrailingNl(@)]
   IN PushS(PushS(s3, NL), "}")
-OptBlk(st, bs, o) == IF Len(bs) = 0 THEN st ELSE Blk(st, bs[1], o)
+OptBlk(st, bs, o) == IF Len(bs) = 0 THEN st ELSE Blk(st, bs[1], TRUE, o)
 
 (* format_token, one disjunct per Token variant that the model covers *)
 Tok(st, s, o) ==
   CASE s.k = "insn"    -> CL(Parts(SP(PushS(st, Cased(o.mcase, s.tag))), s.p1, o))
     [] s.k = "label"   -> OptBlk(Push(st, "label", <<s.tag \o ":">>), s.blk, o)
     [] s.k = "data"    -> CL(Parts(S(PushS(st, s.tag)), s.p1, o))
-    [] s.k = "braces"  -> Blk(st, s.blk[1], o)
-    [] s.k = "if"      -> LET a == Blk(S(Parts(S(PushS(st, s.tag)), s.p1, o)), s.blk[1], o) IN
+    [] s.k = "braces"  -> Blk(st, s.blk[1], FALSE, o)
+    [] s.k = "if"      -> LET a == Blk(S(Parts(S(PushS(st, s.tag)), s.p1, o)), s.blk[1], TRUE, o) IN
                           IF Len(s.blk) < 2 THEN a
-                          ELSE IF o.brace = "same" THEN Blk(S(PushS(Gap(S(a), s.ge), "else")), s.blk[2], o)
-                          ELSE Blk(PushS(Gap(PushS(a, NL), s.ge), "else"), s.blk[2], o)
-    [] s.k = "loop"    -> Blk(S(Parts(S(PushS(st, s.tag)), s.p1, o)), s.blk[1], o)
+                          ELSE IF o.brace = "same" THEN Blk(S(PushS(Gap(S(a), s.ge), "else")), s.blk[2], TRUE, o)
+                          ELSE IF "ElseOnNewLineGainsBlankLine" \in Devs
+                               THEN Blk(PushS(Gap(PushS(a, NL), s.ge), "else"), s.blk[2], TRUE, o)          \* push("\n").fmt(tag_else)
+                               ELSE Blk(PushS(NlUnlessPresent(Gap(a, s.ge)), "else"), s.blk[2], TRUE, o)    \* trivia; newline_unless_present(); "else"
+    [] s.k = "loop"    -> Blk(S(Parts(S(PushS(st, s.tag)), s.p1, o)), s.blk[1], TRUE, o)
     [] s.k = "segment" -> OptBlk(S(Parts(S(PushS(st, s.tag)), s.p1, o)), s.blk, o)
-    [] s.k = "test"    -> Blk(SP(Parts(SP(PushS(st, s.tag)), s.p1, o)), s.blk[1], o)
-    [] s.k = "macro"   -> Blk(SP(Parts(S(PushS(st, s.tag)), s.p1, o)), s.blk[1], o)
+    [] s.k = "test"    -> Blk(SP(Parts(SP(PushS(st, s.tag)), s.p1, o)), s.blk[1], TRUE, o)
+    [] s.k = "macro"   -> Blk(SP(Parts(S(PushS(st, s.tag)), s.p1, o)), s.blk[1], TRUE, o)
     [] s.k = "call"    -> CL(Parts(PushS(st, s.tag), s.p1, o))
     [] s.k = "var"     -> Parts(S(Part(S(Part(S(PushS(st, s.tag)), s.p1[1], o)), s.p1[2], o)), SubSeq(s.p1, 3, Len(s.p1)), o)
     [] s.k = "pc"      -> Parts(S(Part(S(PushS(st, s.tag)), s.p1[1], o)), Tail(s.p1), o)
@@ -135,9 +167,16 @@ Tok(st, s, o) ==
     [] s.k = "trace"   -> IF Len(s.p1) = 0 THEN CL(PushS(st, s.tag)) ELSE Parts(SP(PushS(st, s.tag)), s.p1, o)
     [] s.k = "file"    -> Parts(S(PushS(st, s.tag)), s.p1, o)
 
-(* one iteration of the loop of format_tokens: optional "\n", the token, then the trivia of the NEXT token *)
+(* one iteration of the loop of format_tokens: optional "\n"s, the token, then the trivia of the NEXT token.
+   Repaired SameLineStatementsGlued: a token (not Eof) whose leading trivia holds no newline first gets the line
+   break the source lacks; the rule table then applies as it does to statements on separate lines *)
+OnSameLine(body, eoftr, i) ==      \* (a label without block may share its line with the statement that follows it)
+  /\ i > 1 /\ i <= Len(body) /\ "SameLineStatementsGlued" \notin Devs
+  /\ ~(body[i - 1].k = "label" /\ Len(body[i - 1].blk) = 0) /\ ~HasNl(LeadOf(body, i, eoftr))
+RuleNl(body, i) == i > 1 /\ NeedNl(KindOf(body, i - 1), KindOf(body, i), HasBlk(body, i))
 VisitStep(st, body, eoftr, i, o) ==
-  LET sa == IF i > 1 /\ NeedNl(KindOf(body, i - 1), KindOf(body, i), HasBlk(body, i)) THEN PushS(st, NL) ELSE st
+  LET s0 == IF OnSameLine(body, eoftr, i) THEN PushS(st, NL) ELSE st
+      sa == IF RuleNl(body, i) THEN PushS(s0, NL) ELSE s0
       sb == IF i <= Len(body) THEN Tok(sa, body[i], o) ELSE sa
   IN IF i <= Len(body) THEN Gap(sb, LeadOf(body, i + 1, eoftr)) ELSE sb
 Loop(st, body, eoftr, i, o) == IF i > Len(body) + 1 THEN st ELSE Loop(VisitStep(st, body, eoftr, i, o), body, eoftr, i + 1, o)
@@ -227,9 +266,14 @@ BodyHasDroppedComment(body) ==
   \E i \in 1..Len(body) : \E n \in 1..Len(body[i].blk) : BlkHasDropped(body[i].blk[n])
 
 (* statements that share a source line and between which format_tokens pushes no "\n": their texts are glued *)
-HasNl(tr) == \E i \in 1..Len(tr) : tr[i].k = "nl"
 RECURSIVE BodyHasSameLinePair(_)
 BodyHasSameLinePair(body) ==
   \/ \E i \in 2..Len(body) : ~HasNl(body[i].lead) /\ ~NeedNl(body[i - 1].k, body[i].k, Len(body[i].blk) > 0)
   \/ \E i \in 1..Len(body) : \E n \in 1..Len(body[i].blk) : BodyHasSameLinePair(body[i].blk[n].body)
+
+(* statements that share a source line at all (the label that may share its line with its statement excepted) *)
+RECURSIVE BodySharesLine(_)
+BodySharesLine(body) ==
+  \/ \E i \in 2..Len(body) : ~HasNl(body[i].lead) /\ ~(body[i - 1].k = "label" /\ Len(body[i - 1].blk) = 0)
+  \/ \E i \in 1..Len(body) : \E n \in 1..Len(body[i].blk) : BodySharesLine(body[i].blk[n].body)
 =============================================================================
